@@ -58,6 +58,8 @@ class Acc:
                 hit = True
             else:
                 self.count('other_property_clause:' + v['clause'])
+        if world.diverged and not hit:
+            self.count('histories_stopped_by_a_divergence_of_another_property')
         return hit
 
     def outcome(self, *parts):
